@@ -86,7 +86,7 @@ Keep2 == {"add", "subtract", "maximum", "minimum", "hypot", "fmax", "fmin"}     
 KeepSeq == {"concatenate", "stack", "hstack", "vstack"}                                            \* a sequence of Arrays
 Pred1 == {"isfinite", "isnan", "isinf", "logical_not", "signbit"}
 Pred2 == {"less", "less_equal", "greater", "greater_equal", "equal", "not_equal"}
-Trans1 == {"sqrt", "square", "cbrt", "reciprocal"}
+Trans1 == {"sqrt", "square", "cbrt", "reciprocal", "power_int2", "power_nd2", "power_nd3"}        \* np.power with a Python int / 0-d ndarray exponent
 Trans2 == {"multiply", "divide", "true_divide"}
 NpOutcome(c) ==
   LET u == PU(c.lu)  v == IF c.rk = "arr" THEN PU(c.ru) ELSE Unit0 IN
@@ -94,7 +94,8 @@ NpOutcome(c) ==
     [] c.f \in Pred1 -> [raises |-> FALSE, unit |-> Sparse(Unit0), bool |-> TRUE]
     [] c.f = "sqrt" -> IF URootOk(u, 2) THEN [raises |-> FALSE, unit |-> Sparse(URoot(u, 2)), bool |-> FALSE] ELSE [raises |-> FALSE, unit |-> <<"fractional">>, bool |-> FALSE]
     [] c.f = "cbrt" -> IF URootOk(u, 3) THEN [raises |-> FALSE, unit |-> Sparse(URoot(u, 3)), bool |-> FALSE] ELSE [raises |-> FALSE, unit |-> <<"fractional">>, bool |-> FALSE]
-    [] c.f = "square" -> [raises |-> FALSE, unit |-> Sparse(UPow(u, 2)), bool |-> FALSE]
+    [] c.f \in {"square", "power_int2", "power_nd2"} -> [raises |-> FALSE, unit |-> Sparse(UPow(u, 2)), bool |-> FALSE]
+    [] c.f = "power_nd3" -> [raises |-> FALSE, unit |-> Sparse(UPow(u, 3)), bool |-> FALSE]
     [] c.f = "reciprocal" -> [raises |-> FALSE, unit |-> Sparse(UInv(u)), bool |-> FALSE]
     [] c.f \in Trans2 -> [raises |-> FALSE, bool |-> FALSE, conv |-> <<>>, converted |-> FALSE,
                           unit |-> Sparse(IF c.f = "multiply" THEN UMul(u, v) ELSE UDiv(u, v))]      \* no conversion: the product of the units is exact
